@@ -130,6 +130,35 @@ def run(ctx):
                     n_b += 1
                     ctx.ok('C14.R7', m.site(tt, hf), 'bound %s tested with %s None' % (U(pp[0]), pp[1]))
     ctx.count('date_bound_presence_tests', n_b, 4)
+    # an attribute that a stored class carries is declared applicable to that object type (Locate drops the object from any filter on a non-applicable attribute)
+    ctx.rule('C14.R9', 'for every attribute backed by a pie field and every stored object type whose class has that field, the attribute rule table lists the type under applies_to_object_types: _process_locate skips objects for which the filtered attribute is "not applicable", so a missing entry silently removes those objects from every such filter (and the attribute from GetAttributes)')
+    from ..polmodel import PolicyModel
+    from ..piemodel import PieModel
+    pol9 = PolicyModel(src)
+    pm9 = PieModel(src)
+    gf9 = getter_fields(m)
+    types9 = {}
+    for c9 in pm9.classes:
+        try:
+            t9 = pm9.object_type_of(c9)
+        except Exception:
+            t9 = None
+        if t9:
+            types9[t9] = c9
+    ctx.count('stored_object_types', len(types9), 7)
+    n9 = 0
+    for name9, flds9 in sorted(gf9.items()):
+        if not flds9 or name9 not in pol9.rules:
+            continue
+        app9 = pol9.rules[name9].get('applies_to_object_types')
+        if not isinstance(app9, (set, frozenset, tuple, list)):
+            continue
+        for t9, c9 in sorted(types9.items()):
+            if all(pm9.has(c9, f9) for f9 in flds9):
+                n9 += 1
+                ctx.check(t9 in app9, 'C14.R9', 'AttributePolicy|%s|applies to %s' % (name9, t9), 'kmip/services/server/policy.py AttributePolicy rule %r' % name9,
+                          '%s carries %s and the rule lists it' % (c9, flds9), '%s objects carry the field(s) %s behind attribute %r, but the rule table does not list %s as applicable: every Locate filter on %r drops such objects' % (c9, flds9, name9, t9, name9))
+    ctx.count('applicability_obligations', n9, 40)
     fn = m.method('_process_locate')
     g = CFG(fn)
     rd = ReachingDefs(g)
